@@ -610,6 +610,31 @@ def k8(ctx):
                       % (inst(f), diffs), node.loc, d)
 
 
+    # every other recursion of the engine that carries a depth (paths, accessors, broadcasting):
+    # the same limit test - a treespec that could be built (depth <= limit) can be walked by them
+    others = 0
+    for f in live_funcs(prog):
+        if f.body is None or f.is_lambda or f.dependent or \
+                any(f.qualname.endswith(n_) for n_ in descs):
+            continue
+        chk = _depth_checks_own(f)
+        if not chk:
+            continue
+        others += 1
+        n_, op_, lhs_ = chk[0]
+        parent_ = enclosing_map(f.body)
+        raises_ = _check_raises(prog, f, n_, parent_)
+        step_ = _depth_step(prog, f)
+        diffs_ = {k: v for k, v in (('op', op_), ('raises_RecursionError', raises_), ('step', step_))
+                  if v != ref[k]}
+        ctx.check(short(f) + '/depth-check', not diffs_,
+                  '%s: raises RecursionError when depth > MAX_RECURSION_DEPTH, +1 per level' % inst(f),
+                  '%s: depth discipline differs from the traversals that build treespecs: %s - a '
+                  'treespec at the limit is rejected (or one beyond it is walked)' % (inst(f), diffs_),
+                  n_.loc)
+    ctx.analysed['other_depth_checked_recursions'] = others
+
+
 def _depth_name(f):
     """name of the variable the depth check of f compares with MAX_RECURSION_DEPTH"""
     chk = _depth_checks(f)
